@@ -5,11 +5,13 @@
    out, so this is the model-level content of "re-serialised in another style with the same node tags"; that the
    IMPLEMENTATION reads no style is what the metamorphic tie checks; (b) the changes of the TYPE MODEL at the position
    where they are made (abstract container annotations, bool_union_fix, order of Union members).  Their propagation
-   through enclosing types, the reordering of class-mapping keys and the registration of unrelated classes are decided by
-   the metamorphic tie (implementation against itself on every generated case), not by theorems. *)
+   through enclosing types is decided by the metamorphic tie (implementation against itself on every generated case), not by
+   theorems; (c) the registration of unrelated classes (C13_unrelated_classes*, Proofs/Unrelated.v, Unrelated2.v), for registries
+   without custom recognisers and savorize hooks (with hooks: tie); (d) the reordering of the keys of a mapping loaded as a class
+   (C13_key_order, Proofs/KeyOrder.v), for registries without custom recognisers and savorize hooks (with hooks: tie). *)
 From Coq Require Import NArith ZArith List Bool String Permutation.
 Import ListNotations.
-From Y Require Import Prelude Node Tables NodeOps Types Recognize Loader Hooks Spec Polymorph Invariance Marks.
+From Y Require Import Prelude Node Tables NodeOps Types Recognize Loader Hooks Spec Polymorph Invariance Marks KeyOrder Unrelated Unrelated2.
 Open Scope N_scope.
 
 (* Marks are never consulted: two node trees that differ only in their marks (eqm) load to the same value or fail with
@@ -64,6 +66,41 @@ Theorem C13_union_member_order : forall rec ts ts' m tys e, Permutation ts ts' -
 Proof. exact rec_union_perm. Qed.
 
 (* non-vacuity: the three sequence annotations are origins of the generated table; a bool is recognised alike *)
+(* The keys of a mapping loaded as a class may come in any order: for every registry without custom recognisers and savorize
+   hooks (any hierarchy, any parameter types), every mapping with distinct scalar keys and every permutation of its pairs, if
+   the load succeeds with an object of a class that takes no _yatiml_extra, the permuted mapping loads to the IDENTICAL value.
+   (With _yatiml_extra the extra attributes arrive in document order, so only the order inside that ordered mapping follows
+   the document; failure is preserved as well, by symmetry: apply the theorem to the inverse permutation.)  Recognition of
+   the two mappings is literally the same function (C13_key_order_recognition), for every class type. *)
+Theorem C13_key_order : forall o reg, no_recognisers reg -> no_savorizers reg ->
+  forall t ps ps' m c v, Permutation ps ps' -> scalar_keys ps -> NoDup (keys ps) ->
+  load o reg (Some (Map t ps m)) (TClass c) = Ok v ->
+  (forall d k params ex args, v = VObj d args -> find_cls reg d = Some k -> c_shape k = ShObj params ex -> ex = false) ->
+  load o reg (Some (Map t ps' m)) (TClass c) = Ok v.
+Proof. exact load_key_order. Qed.
+Print Assumptions C13_key_order.
+Theorem C13_key_order_recognition : forall o reg, no_recognisers reg ->
+  forall t ps ps' m c f, Permutation ps ps' -> scalar_keys ps -> NoDup (keys ps) ->
+  recognize o reg f (Map t ps m) (TClass c) = recognize o reg f (Map t ps' m) (TClass c).
+Proof. intros o reg Hr t ps ps' m c f HP Hs Hn. apply recognize_class_same; [exact Hr | apply perm_same; assumption]. Qed.
+Print Assumptions C13_key_order_recognition.
+(* both directions at once for registries in which no class takes _yatiml_extra: same value or both fail *)
+Theorem C13_key_order_iff : forall o reg, no_recognisers reg -> no_savorizers reg ->
+  (forall k params ex, In k reg -> c_shape k = ShObj params ex -> ex = false) ->
+  forall t ps ps' m c v, Permutation ps ps' -> scalar_keys ps -> NoDup (keys ps) ->
+  (load o reg (Some (Map t ps m)) (TClass c) = Ok v <-> load o reg (Some (Map t ps' m)) (TClass c) = Ok v).
+Proof.
+  intros o reg Hr Hs Hex t ps ps' m c v HP Hk Hn.
+  assert (G : forall d k params ex args, v = VObj d args -> find_cls reg d = Some k -> c_shape k = ShObj params ex -> ex = false).
+  { intros d k params ex args _ Ek Es. eapply Hex; [|exact Es]. exact (proj1 (RegOrder.find_cls_In _ _ _ Ek)). }
+  split; intros E.
+  - eapply load_key_order; eauto.
+  - eapply load_key_order; [exact Hr | exact Hs | apply Permutation_sym, HP | | | exact E | exact G].
+    + unfold scalar_keys in *. rewrite Forall_forall in *. intros kv Hin. apply Hk. eapply Permutation_in; [apply Permutation_sym, HP | exact Hin].
+    + eapply Permutation_NoDup; [|exact Hn]. unfold keys. apply Permutation_map, HP.
+Qed.
+Print Assumptions C13_key_order_iff.
+
 Example C13_ex_origins : map is_seq_origin [0; 1; 2]%nat = [true; true; true] /\ map is_map_origin [3; 4; 5]%nat = [true; true; true].
 Proof. vm_compute. split; reflexivity. Qed.
 Example C13_ex_boolfix :
@@ -72,3 +109,74 @@ Example C13_ex_boolfix :
   option_map fst (match recognize [] [] 5 (Scalar tag_bool (u "true") nomark) (TUnion [TInt; TBool; TBoolFix]) with Ok r => Some r | _ => None end)
     = Some [TBool].
 Proof. vm_compute. split; reflexivity. Qed.
+
+(* Registering unrelated classes: reg ++ ext, where the classes of ext have fresh names, neither derive from classes of reg
+   nor are bases of them, are mentioned by no parameter type of reg, and reg has no custom recognisers / savorize hooks (ext may
+   have any).  Then at every type that does not mention ext, EVERY node -- whatever tags it carries, including tags naming
+   classes of ext -- is recognised as the same types with the same error tree and processed into the same tree: the two
+   registries give literally the same recognition and processing functions.  For documents none of whose tags names a class of
+   ext (no other restriction on tags: core tags, tags naming classes of reg, unknown tags) the WHOLE LOAD is the same function:
+   same value or same error (C13_unrelated_classes); the isinstance-based checks of the constructor only ever see classes of reg. *)
+Theorem C13_unrelated_classes_recognition : forall o reg ext, unrelated reg ext ->
+  forall f n T, avoid ext T -> recognize o (reg ++ ext) f n T = recognize o reg f n T.
+Proof. intros o reg ext U f. exact (proj1 (recognize_unrelated o reg ext U f)). Qed.
+Print Assumptions C13_unrelated_classes_recognition.
+Theorem C13_unrelated_classes_processing : forall o reg ext, unrelated reg ext ->
+  forall f n T, avoid ext T -> process o (reg ++ ext) f n T = process o reg f n T.
+Proof. exact process_unrelated. Qed.
+Print Assumptions C13_unrelated_classes_processing.
+
+Theorem C13_unrelated_classes : forall o reg ext, unrelated reg ext -> oracle_wf o -> find_cls ext (u "Path") = None ->
+  forall n T, avoid ext T -> tags_ok ext n -> load o (reg ++ ext) (Some n) T = load o reg (Some n) T.
+Proof. exact load_unrelated. Qed.
+Print Assumptions C13_unrelated_classes.
+
+(* non-vacuity of C13_key_order: a hook-free registry, a mapping with distinct scalar keys that loads, and its reversal *)
+Local Open Scope string_scope.
+Definition ex_ko : cls :=
+  {| c_name := u "P"; c_bases := [u "object"]; c_ancestors := [u "P"; u "object"]; c_abstract := false;
+     c_shape := ShObj [{| p_name := u "a"; p_ty := TInt; p_required := true |}; {| p_name := u "b"; p_ty := TStr; p_required := true |}] false;
+     c_recognize := None; c_savorize := None; c_sweeten := None; c_init_ok := fun _ => true; c_str_ok := fun _ => true |}.
+Definition ex_ko_pairs : list (node * node) :=
+  [(Scalar tag_str (u "b") nomark, Scalar tag_str (u "x") nomark); (Scalar tag_str (u "a") nomark, Scalar tag_int (u "1") nomark)].
+Example C13_ex_key_order :
+  no_recognisers [ex_ko] /\ no_savorizers [ex_ko] /\ scalar_keys ex_ko_pairs /\ NoDup (keys ex_ko_pairs) /\
+  Permutation ex_ko_pairs (rev ex_ko_pairs) /\
+  load [((tag_int, u "1"), Ok (VInt 1))] [ex_ko] (Some (Map tag_map ex_ko_pairs nomark)) (TClass (u "P"))
+    = Ok (VObj (u "P") [(u "a", VInt 1); (u "b", VStr (u "x"))]) /\
+  load [((tag_int, u "1"), Ok (VInt 1))] [ex_ko] (Some (Map tag_map (rev ex_ko_pairs) nomark)) (TClass (u "P"))
+    = Ok (VObj (u "P") [(u "a", VInt 1); (u "b", VStr (u "x"))]).
+Proof.
+  split; [intros k [<-|[]]; reflexivity|]. split; [intros k [<-|[]]; reflexivity|].
+  split; [repeat constructor|]. split.
+  - unfold keys, ex_ko_pairs. cbn [map fst key_text']. constructor; [intros [H|[]]; apply ueqb_eq in H; vm_compute in H; discriminate H|].
+    constructor; [intros []|constructor].
+  - split; [apply Permutation_rev|]. vm_compute. split; reflexivity.
+Qed.
+
+(* non-vacuity of the unrelated-classes theorems *)
+Definition ex_q : cls :=
+  {| c_name := u "Q"; c_bases := [u "object"]; c_ancestors := [u "Q"; u "object"]; c_abstract := false;
+     c_shape := ShObj [{| p_name := u "z"; p_ty := TClass (u "Q"); p_required := false |}] true;
+     c_recognize := Some (fun _ _ => true); c_savorize := None; c_sweeten := None; c_init_ok := fun _ => true; c_str_ok := fun _ => true |}.
+Example C13_ex_unrelated : unrelated [ex_ko] [ex_q] /\ avoid [ex_q] (TUnion [TClass (u "P"); TList 0 TInt]).
+Proof.
+  split; [constructor|].
+  - intros k [<-|[]]. reflexivity.
+  - intros k [<-|[]]. reflexivity.
+  - intros k b [<-|[]] [<-|[]]. reflexivity.
+  - intros k b [<-|[]] [<-|[]]. reflexivity.
+  - intros k [<-|[]]. reflexivity.
+  - intros k [<-|[]]. reflexivity.
+  - intros k p [<-|[]] [<-|[<-|[]]]; exact I.
+  - cbn. repeat split.
+Qed.
+Example C13_ex_unrelated_doc :
+  oracle_wf [((tag_int, u "1"), Ok (VInt 1))] /\ find_cls [ex_q] (u "Path") = None /\ tags_ok [ex_q] (Map tag_map ex_ko_pairs nomark) /\
+  load [((tag_int, u "1"), Ok (VInt 1))] ([ex_ko] ++ [ex_q])%list (Some (Map tag_map ex_ko_pairs nomark)) (TClass (u "P"))
+    = Ok (VObj (u "P") [(u "a", VInt 1); (u "b", VStr (u "x"))]).
+Proof.
+  split.
+  - apply Conform.oracle_wfb_sound. vm_compute. reflexivity.
+  - split; [reflexivity|]. split; [|vm_compute; reflexivity]. cbn. repeat split.
+Qed.
